@@ -122,7 +122,7 @@ impl Property for C05 {
          near-collision rewrites LF<->backslash-n, quotes, backslashes, control characters, retyping; numbers +-1; member rename/removal; text \
          moved between key and value; array element removed/duplicated/merged/split/swapped); (b) batches of 24 small links over a 16-string \
          near-collision alphabet; (c) pairs of JSON values (independent or one edit apart). Oracle: (a) when the edited tree parses and \
-         parsed(M2) != parsed(M1), the block {signatures: sign(M1), signed: M2} must fail verify(1,[k]), and Ed25519 signatures of M1 and M2 \
+         parsed(M2) != parsed(M1), then - after the genuine block has been verified once in the same process - the block {signatures: sign(M1), signed: M2} must fail verify(1,[k]), and Ed25519 signatures of M1 and M2 \
          differ; (b) equal Ed25519 signatures (= equal signed bytes) only for equal values; (c) v1 != v2 => canonicalize(v1) != canonicalize(v2). \
          Non-trivial: (a) the edit is observable (parsed values differ); (b) always; (c) values differ. Distinct by the exact case."
             .into()
@@ -190,6 +190,8 @@ impl Property for C05 {
                 let class = edit_class(&what);
                 o.class(class.clone());
                 o.nontrivial(format!("{:?}|{:?}", doc, edit));
+                // history: the genuine block is verified (and accepted) first, in this process
+                let _ = b1.verify(1, [&pk]);
                 if b2.verify(1, [&pk]).is_ok() {
                     o.fail(format!("C05/stale-signature-accepted/{}", class),
                         format!("signature over M1 verifies over M2 ({}): M2 = {}", what, tree2),
@@ -225,6 +227,7 @@ impl Property for C05 {
                 };
                 // transplant: signatures of A over content B
                 let stale = Metablock { signatures: ba.signatures.clone(), metadata: mb };
+                let _ = ba.verify(1, [&pk]);
                 if stale.verify(1, [&pk]).is_ok() {
                     o.fail("C05/stale-signature-accepted/edit:expiry", format!("signature over expiry {} ({}) verifies over expiry {} ({})", a, rfc3339_z(*a), b, rfc3339_z(*b)), "Err");
                 }
